@@ -440,6 +440,13 @@ func (g *FuncGen) execBinOp(x *ssa.BinOp, st *State) error {
 				return nil
 			}
 		}
+		if x.Op == token.SHL && isIntType(x.Type()) {
+			// a << n for 0 <= n <= 62 (obligation; a larger or negative count is outside the model)
+			g.check(st, "safe.shift", fmt.Sprintf("(and (<= 0 %s) (<= %s 62))", b, b), "shift count must be within 0..62", pos)
+			g.define(x, fmt.Sprintf("(* %s (pow2 %s))", a, b))
+			g.overflowCheck(st, x, pos)
+			return nil
+		}
 		g.abstract("shift by non-constant")
 		g.assumeType(g.val(x), x.Type(), "", "")
 	default:
